@@ -458,8 +458,13 @@ fn run() {
                     };
                     let balances: Vec<AssetBalance<AssetIndex>> =
                         op[1..].chunks(4).map(balance_of).collect();
-                    let exchange =
-                        ExchangeIndex(exchange_index_of_asset(engine, balances[0].asset.index()));
+                    // an account snapshot WITHOUT balances (a fresh account) is legal: exchange 0
+                    let exchange = ExchangeIndex(
+                        balances
+                            .first()
+                            .map(|b| exchange_index_of_asset(engine, b.asset.index()))
+                            .unwrap_or(0),
+                    );
                     let _ = engine.process(EngineEvent::Account(AccountStreamEvent::Item(
                         AccountEvent {
                             exchange,
@@ -879,7 +884,217 @@ fn generate(seed: u64, n_cases: usize, tier: &str) {
         out.case(format!("r{id}"));
         random_case(&mut rng, &mut out, tier);
     }
+    domain_family(&mut out, seed, n_cases, tier);
     out.flush();
+}
+
+// ---------------------------------------------------------------- input-domain family (`d..` cases)
+//
+// Separately seeded, appended after the random cases (which stay exactly as they were): input classes
+// of the public API the random cases never produce. One class per case, cycled by case number:
+//   0 signed fees   (engine) maker REBATES (negative `Trade.fees`) on the opening and / or the closing fill of
+//                   `rt`, on the opening fill of `flip` (its flipping fill stays free of fees, see gen_rt)
+//   1 long          60-100 (thorough -150) closed positions on ONE instrument (direct / engine), requests
+//                   only every ~25 events and at the end
+//   2 odd balances  (both paths) free > total, free < 0, zero totals after positive ones, NEGATIVE and far
+//                   exchange times, the first snapshot of an asset at a negative time, then equal / stale ones
+//   3 snapshots     (engine) full account snapshots WITHOUT balances, with the same asset two to four times
+//                   (equal, rising and falling times inside ONE snapshot), alternating with single ones
+//   4 signs of cost (direct) negative entry price, negative size, both; the same record on two instruments
+//   5 wide / empty  0 instruments (empty summary, requests only) or 4-5 instruments
+
+fn dom_rt_signed(rng: &mut Rng, n: usize, clock: &mut Clock) -> String {
+    let i = rng.below(n as u64) as usize;
+    let (entry, qty) = *rng.pick(&NOTIONALS);
+    let side = *rng.pick(&["B", "S"]);
+    let pnl = rng.range(-20, 20);
+    let e = parse_dec(entry);
+    let delta = Decimal::from(pnl) / parse_dec(qty);
+    let mut exit = if side == "B" { e + delta } else { e - delta };
+    if exit <= Decimal::ZERO {
+        exit = e;
+    }
+    let fee_in = dec_str(*rng.pick(&[-5i64, -2, -1, 0, 1, 5]), 1);
+    let fee_out = dec_str(*rng.pick(&[-25i64, -10, -1, 0, 1, 25]), 2);
+    let t_out = clock.next(rng, i);
+    let t_in = t_out - rng.range(0, 3) * 1000;
+    if rng.chance(20) {
+        let t3 = t_out + *rng.pick(&[0i64, 1000, 60_000]);
+        clock.now[i] = t3;
+        format!("flip {i} {side} {entry} {qty} {} {fee_in} 0 {t_in} {t_out} {t3}", exit.normalize())
+    } else {
+        format!("rt {i} {side} {entry} {qty} {} {fee_in} {fee_out} {t_in} {t_out}", exit.normalize())
+    }
+}
+
+fn domain_family(out: &mut Out, seed: u64, n_cases: usize, tier: &str) {
+    let mut rng = Rng::new(seed ^ 0xD0_16_4B_D0);
+    let rng = &mut rng;
+    let thorough = tier == "thorough";
+    let count = (n_cases / 8).max(6);
+    for j in 0..count {
+        out.case(format!("d{}", j + 1));
+        let rf = *rng.pick(&["0", "0.0015", "0.001", "-0.0005"]);
+        let new_clock = |rng: &mut Rng, n: usize| Clock {
+            step: *rng.pick(&[1000i64, 60_000, 3_600_000, DAY, 7 * DAY]),
+            whole: !rng.chance(25),
+            now: vec![0; n],
+        };
+        match j % 6 {
+            0 => {
+                let n = rng.range(1, 3) as usize;
+                out.line(format!("init {n} {} engine {rf}", n_assets(n)));
+                let mut clock = new_clock(rng, n);
+                for _ in 0..rng.range(2, 20) {
+                    out.line(dom_rt_signed(rng, n, &mut clock));
+                    if rng.chance(15) {
+                        out.line(format!("gen {}", iv_tok(rng, false)));
+                    }
+                }
+                out.line(format!("gen {}", iv_tok(rng, false)));
+            }
+            1 => {
+                let engine = rng.chance(50);
+                out.line(format!("init 1 2 {} {rf}", if engine { "engine" } else { "direct" }));
+                let mut clock = new_clock(rng, 1);
+                let bias = *rng.pick(&[0u64, 1, 3, 4, 4, 5]);
+                let eq = rng.chance(30);
+                let mut seen = vec![false; 1];
+                let len = rng.range(60, if thorough { 150 } else { 100 });
+                for k in 0..len {
+                    if engine {
+                        out.line(gen_rt(rng, 1, &mut clock, bias, &mut seen, eq));
+                    } else {
+                        out.line(gen_pos(rng, 1, &mut clock, bias, &mut seen, eq));
+                    }
+                    if k % 25 == 24 {
+                        out.line(format!("{} {}", if rng.chance(70) { "gen" } else { "peek" }, iv_tok(rng, false)));
+                    }
+                }
+                out.line("gen D");
+                out.line(format!("gen {}", iv_tok(rng, false)));
+            }
+            2 => {
+                let n = rng.range(1, 2) as usize;
+                let m = n_assets(n);
+                let engine = rng.chance(50);
+                out.line(format!("init {n} {m} {} {rf}", if engine { "engine" } else { "direct" }));
+                let mut t: i64 = *rng.pick(&[-86_400_000i64, -5000, -1, 0, 1_700_000_000_000]);
+                let mut level = vec![0i64; m];
+                for a in 0..m {
+                    level[a] = *rng.pick(&[50i64, 100, 200]);
+                }
+                for _ in 0..rng.range(3, 25) {
+                    let a = rng.below(m as u64) as usize;
+                    t += *rng.pick(&[0i64, 0, -1000, -3000, 1000, 1000, 2000, 60_000]);
+                    level[a] = (level[a] + *rng.pick(&[-30i64, -20, -10, 0, 10, 20, 40])).max(if rng.chance(10) { 0 } else { 10 });
+                    let total = level[a];
+                    let free = match rng.below(5) {
+                        0 => total * 10,
+                        1 => 0,
+                        2 => -rng.range(1, 500),
+                        3 => total * 10 + rng.range(1, 500),
+                        _ => rng.range(0, total.max(1)) * 10,
+                    };
+                    out.line(format!("bal {a} {t} {total} {}", dec_str(free, 1)));
+                    if rng.chance(20) {
+                        out.line(format!("{} {}", if rng.chance(70) { "gen" } else { "peek" }, iv_tok(rng, false)));
+                    }
+                }
+                out.line("gen D");
+            }
+            3 => {
+                let n = rng.range(1, 3) as usize;
+                let m = n_assets(n);
+                out.line(format!("init {n} {m} engine {rf}"));
+                let mut t = 0i64;
+                let mut level = 100i64;
+                if rng.chance(50) {
+                    out.line("snap");
+                    out.line("gen D");
+                }
+                for _ in 0..rng.range(2, 12) {
+                    match rng.below(5) {
+                        0 => out.line("snap"),
+                        1 => {
+                            t += 1000;
+                            level = (level + *rng.pick(&[-20i64, -10, 10, 30])).max(10);
+                            out.line(format!("bal {} {t} {level} {level}", rng.below(m as u64)));
+                        }
+                        _ => {
+                            // the same asset several times in ONE snapshot
+                            let a = rng.below(m as u64);
+                            let k = rng.range(2, 4);
+                            let mut items = vec![];
+                            for _ in 0..k {
+                                t += *rng.pick(&[0i64, 0, 1000, -1000, 2000]);
+                                t = t.max(0);
+                                level = (level + *rng.pick(&[-30i64, -10, 0, 10, 20])).max(10);
+                                let who = if rng.chance(80) { a } else { rng.below(m as u64) };
+                                items.push(format!("{who} {t} {level} {level}"));
+                            }
+                            out.line(format!("snap {}", items.join(" ")));
+                        }
+                    }
+                    if rng.chance(25) {
+                        out.line(format!("gen {}", iv_tok(rng, false)));
+                    }
+                }
+                out.line("gen D");
+            }
+            4 => {
+                let n = rng.range(2, 3) as usize;
+                out.line(format!("init {n} {} direct {rf}", n_assets(n)));
+                let mut clock = new_clock(rng, n);
+                for _ in 0..rng.range(2, 20) {
+                    let i = rng.below(n as u64) as usize;
+                    let t = clock.next(rng, i);
+                    let (entry, qty) = *rng.pick(&NOTIONALS);
+                    let (se, sq) = *rng.pick(&[("-", ""), ("", "-"), ("-", "-"), ("-", "")]);
+                    let pnl = if rng.chance(25) { 0 } else { rng.range(-20, 20) };
+                    out.line(format!("pos {i} {t} {pnl} {se}{entry} {sq}{qty}"));
+                    if rng.chance(30) {
+                        let i2 = (i + 1) % n;
+                        let t2 = clock.next(rng, i2);
+                        out.line(format!("pos {i2} {t2} {pnl} {se}{entry} {sq}{qty}"));
+                    }
+                    if rng.chance(15) {
+                        out.line(format!("{} {}", if rng.chance(70) { "gen" } else { "peek" }, iv_tok(rng, false)));
+                    }
+                }
+                out.line("gen D");
+            }
+            _ => {
+                let n = *rng.pick(&[0usize, 4, 5]);
+                let m = n_assets(n);
+                let engine = rng.chance(50);
+                out.line(format!("init {n} {m} {} {rf}", if engine { "engine" } else { "direct" }));
+                if n == 0 {
+                    // (no `snap` here: without instruments the engine knows no exchange an account event could name)
+                    out.line("gen D");
+                    out.line(format!("gen {}", iv_tok(rng, true)));
+                } else {
+                    let mut clock = new_clock(rng, n);
+                    let mut seen = vec![false; n];
+                    let mut balances = Balances {
+                        clock: 0,
+                        level: (0..m).map(|_| *rng.pick(&[50i64, 100, 100, 200])).collect(),
+                        floor: None,
+                    };
+                    for _ in 0..rng.range(3, 25) {
+                        if rng.chance(30) {
+                            out.line(format!("bal {}", balances.item(rng, m)));
+                        } else if engine {
+                            out.line(gen_rt(rng, n, &mut clock, 4, &mut seen, false));
+                        } else {
+                            out.line(gen_pos(rng, n, &mut clock, 4, &mut seen, false));
+                        }
+                    }
+                    out.line("gen D");
+                }
+            }
+        }
+    }
 }
 
 fn main() {
